@@ -58,7 +58,7 @@ def one(job):
     notes = open(f'{d}/notes.md').read() if os.path.isfile(f'{d}/notes.md') else ''
     meta = {
         'id': f'{p}-{TAG}-{k}', 'breaks_property': p,
-        'origin': f'independent sub-agent (round {TAG}: asked for changes of a different character than in the earlier rounds), given only the property text and a scratch worktree',
+        'origin': f'independent sub-agent (round {TAG}: asked for changes that need something specific to manifest - a sequence, an unusual input, two cooperating sites), given only the property text and a scratch worktree',
         'repo_head_when_confirmed': head,
         'needs_to_manifest': next((l.strip() for l in notes.splitlines() if 'need' in l.lower() and len(l) > 30), '')[:400],
         'confirmed_by_me': {
